@@ -67,14 +67,21 @@ func spec(nonce int) []byte {
 	}}
 	doc := kinx.Doc(map[string]any{
 		"/items/{id}": map[string]any{
-			"parameters": []any{map[string]any{"name": "id", "in": "path", "required": true, "schema": map[string]any{"type": "string", "pattern": fmt.Sprintf("^i%d-[0-9]+$", nonce)}}},
+			// three path-level parameters: a slice decoded from text then has spare capacity, which an
+			// append in shared code would write into
+			"parameters": []any{map[string]any{"name": "id", "in": "path", "required": true, "schema": map[string]any{"type": "string", "pattern": fmt.Sprintf("^i%d-[0-9]+$", nonce)}},
+				map[string]any{"name": "X-Trace", "in": "header", "schema": map[string]any{"type": "string", "maxLength": 8}},
+				map[string]any{"name": "X-Tenant", "in": "header", "schema": map[string]any{"type": "integer"}}},
 			"post": map[string]any{
 				"parameters":  []any{map[string]any{"name": "lim", "in": "query", "schema": map[string]any{"type": "integer", "default": 10, "maximum": 100}}},
 				"requestBody": map[string]any{"required": true, "content": map[string]any{"application/json": map[string]any{"schema": map[string]any{"$ref": "#/components/schemas/Item"}}}},
 				"responses": map[string]any{"200": map[string]any{"description": "ok", "headers": map[string]any{"X-N": map[string]any{"schema": map[string]any{"type": "integer"}}},
 					"content": map[string]any{"application/json": map[string]any{"schema": map[string]any{"type": "array", "items": map[string]any{"$ref": "#/components/schemas/Item"}}}}}},
 			},
-			"get": map[string]any{"responses": map[string]any{"200": map[string]any{"description": "ok"}}},
+			"get": map[string]any{"parameters": []any{map[string]any{"name": "verbose", "in": "query", "required": true, "schema": map[string]any{"type": "boolean"}}},
+				"responses": map[string]any{"200": map[string]any{"description": "ok"}}},
+			"delete": map[string]any{"parameters": []any{map[string]any{"name": "X-Confirm", "in": "header", "required": true, "schema": map[string]any{"type": "string", "enum": []any{"yes"}}}},
+				"responses": map[string]any{"204": map[string]any{"description": "gone"}}},
 		},
 		"/items": map[string]any{"get": map[string]any{"responses": map[string]any{"default": map[string]any{"description": "d"}}}},
 	}, map[string]any{"schemas": map[string]any{"Item": item}})
@@ -142,6 +149,25 @@ func (w *world) request(variant int) *http.Request {
 	} else if variant%3 == 2 {
 		q = "?lim=500"
 	}
+	switch variant % 5 {
+	case 3:
+		// the other operations of the same path item, with parameters of their own
+		vq := "?verbose=true"
+		if variant%2 == 0 {
+			vq = ""
+		}
+		req, _ := http.NewRequest("GET", "http://localhost/items/"+id+vq, nil)
+		return req
+	case 4:
+		req, _ := http.NewRequest("DELETE", "http://localhost/items/"+id, nil)
+		if variant%2 == 0 {
+			req.Header.Set("X-Confirm", "yes")
+		}
+		if variant%3 == 0 {
+			req.Header.Set("X-Tenant", "seven")
+		}
+		return req
+	}
 	req, _ := http.NewRequest("POST", "http://localhost/items/"+id+q, strings.NewReader(bs[variant%len(bs)]))
 	req.Header.Set("Content-Type", "application/json")
 	return req
@@ -172,7 +198,10 @@ func (w *world) run(op Op) string {
 		if err := openapi3filter.ValidateRequest(context.Background(), in); err != nil {
 			return "request-invalid"
 		}
-		b, _ := io.ReadAll(req.Body)
+		var b []byte
+		if req.Body != nil {
+			b, _ = io.ReadAll(req.Body)
+		}
 		return "request-valid:" + string(b) + "?" + req.URL.RawQuery
 	case "response":
 		req := w.request(0)
